@@ -1,7 +1,9 @@
 //! `dh` - conformance harness for the deserr TLA+ specifications.
 //! Every sub-command drives the real deserr code and writes an ndjson event trace on stdout
 //! (impl -> spec), optionally from replay records produced by TLC (spec -> impl) on stdin.
+mod bridge;
 mod dym;
+mod enc;
 mod kinds;
 mod ov;
 mod scalar;
@@ -16,6 +18,7 @@ fn main() {
         Some("kinds") => kinds::main(rest),
         Some("dym") => dym::main(rest),
         Some("scalar") => scalar::main(rest),
+        Some("bridge") => bridge::main(rest),
         _ => {
             eprintln!("usage: dh <ptr|kinds|dym|scalar|bridge|core> ...");
             std::process::exit(2);
